@@ -21,6 +21,18 @@ func (e *Enc) call(fr *Frame, st *State, c *ssa.CallCommon, in ssa.Instruction, 
 			if src != "" && strings.Contains(src, as.Key) {
 				as.Matched++
 				ec := e.evalCtx(fr, st)
+				// atentry() in a keyed assertion: the pre-state of the innermost loop around the call
+				if blk := in.Block(); blk != nil {
+					var inner *loopInfo
+					for _, li := range fr.loops {
+						if li.body[blk] && li.preSt != nil && (inner == nil || len(li.body) < len(inner.body)) {
+							inner = li
+						}
+					}
+					if inner != nil {
+						ec.loopPre = inner.preSt
+					}
+				}
 				cnd, err := ec.evalBool(as.Clause.Expr)
 				lab := as.Clause.Label
 				if lab == "" {
@@ -511,7 +523,8 @@ func (e *Enc) applyPreservedTargets(targets []modTarget, pre, st *State, written
 		}
 		if pt.kind == "map" {
 			// the contents of a preserved map are unchanged
-			for n, nh := range st.heaps {
+			for _, n := range sortedHeapNames(st.heaps) {
+				nh := st.heaps[n]
 				if !(strings.HasPrefix(n, "MD_") || strings.HasPrefix(n, "MV_") || n == "ML") || written[n] {
 					continue
 				}
@@ -1278,4 +1291,13 @@ func (e *Enc) acquireProtected(fr *Frame, st *State, recv ssa.Value, pos token.P
 		}
 		e.abstractions["lock acquisition havocs the state protected by "+key+"."+fname+" (other goroutines) and rebases old() to the acquisition"] = true
 	}
+}
+
+func sortedHeapNames(m map[string]Val) []string {
+	var out []string
+	for n := range m {
+		out = append(out, n)
+	}
+	sort.Strings(out)
+	return out
 }
